@@ -86,8 +86,10 @@ ScanFrom(vs, ver, i, loc, max) ==
   ELSE IF vs[i].v < ver /\ vs[i].v > max THEN ScanFrom(vs, ver, i + 1, i, vs[i].v)
   ELSE ScanFrom(vs, ver, i + 1, loc, max)
 
-\* `ignoreMissing := computeOpts.IgnoreMissingChildren`: the only option Change consults
-IgnoreMissing(c) == c.ign
+\* `for _, o := range opts { o(computeOpts) }; ignoreMissing := computeOpts.IgnoreMissingChildren`: the options are
+\* applied in order, so the last IgnoreMissingChildren setting of the list counts (off if there is none); no other
+\* option is consulted.  (c.ign is the same value stated directly; the Judge reads c.ign.)
+IgnoreMissing(c) == LET q == c.opt.imc IN Len(q) > 0 /\ q[Len(q)]
 
 \* findPrevious{Node,Way,Relation}: [old |-> << >> or <<entry>>, err]
 FindPrevious(c, k, el) ==
@@ -284,9 +286,15 @@ CONSTANTS HMax,      \* Singles: stored version sets are the subsets of 1 .. HMa
 
 \* every setting of the options of package annotate besides IgnoreMissingChildren(true) (= c.ign):
 \*   inc  IgnoreInconsistency absent / (false) / (true);  thr  Threshold(d) absent / present;
-\*   cf   ChildFilter absent / accept-all / accept-none;  ignx an explicit IgnoreMissingChildren(false) in front
-OptSets == [inc : {"absent", "off", "on"}, thr : BOOLEAN, cf : {"absent", "all", "none"}, ignx : BOOLEAN]
-NoOpt   == [inc |-> "absent", thr |-> FALSE, cf |-> "absent", ignx |-> FALSE]
+\*   cf   ChildFilter absent / accept-all / accept-none;
+\*   ignx pattern 0 .. 3 of the SEQUENCE of IgnoreMissingChildren settings in the option list (ImcSeq): options are
+\*        applied in order, the effective value is the last setting (off when there is none); c.ign is that value
+OptSets == [inc : {"absent", "off", "on"}, thr : BOOLEAN, cf : {"absent", "all", "none"}, ignx : 0 .. 3]
+NoOpt   == [inc |-> "absent", thr |-> FALSE, cf |-> "absent", ignx |-> 0]
+\* the IgnoreMissingChildren(b) calls of the option list, in order, for effective value ign
+ImcSeq(ign, pat) ==
+  IF ign THEN (CASE pat = 0 -> <<TRUE>> [] pat = 1 -> <<FALSE, TRUE>> [] pat = 2 -> <<TRUE, FALSE, TRUE>> [] pat = 3 -> <<TRUE, TRUE>>)
+  ELSE (CASE pat = 0 -> << >> [] pat = 1 -> <<FALSE>> [] pat = 2 -> <<TRUE, FALSE>> [] pat = 3 -> <<FALSE, TRUE, FALSE>>)
 OptSeq  == SetToSeq(OptSets)
 OptAt(n) == OptSeq[(n % Len(OptSeq)) + 1]
 
@@ -335,7 +343,8 @@ TimedHist(h, tm)  == [k |-> h.k, id |-> h.id, fail |-> h.fail,
                                                          ts |-> TimeOf(tm, "hist", h.vs[j].v, j)]]]
 TimedWorld(w, tm) == [i \in 1 .. Len(w) |-> TimedHist(w[i], tm)]
 Timed(c, tm) ==
-  [ign |-> c.ign, nile |-> c.nile, opt |-> c.opt, idp |-> c.idp, tm |-> tm, hist |-> TimedWorld(c.hist, tm),
+  [ign |-> c.ign, nile |-> c.nile, idp |-> c.idp, tm |-> tm, hist |-> TimedWorld(c.hist, tm),
+   opt |-> [inc |-> c.opt.inc, thr |-> c.opt.thr, cf |-> c.opt.cf, ignx |-> c.opt.ignx, imc |-> ImcSeq(c.ign, c.opt.ignx)],
    ch |-> [create |-> TimedSec(c.ch.create, tm), modify |-> TimedSec(c.ch.modify, tm), delete |-> TimedSec(c.ch.delete, tm)]]
 \* the time mode of a static case: rotated over the modes by a key of the case (number of histories, of elements, versions)
 RECURSIVE SumV(_)
